@@ -499,7 +499,7 @@ func TestC34_RaceWorkload(t *testing.T) {
 		select {
 		case <-done:
 			finished = true
-		case <-time.After(60 * time.Second):
+		case <-time.After(150 * time.Second): // a lingering workload on a saturated machine was seen to need > 60 s
 		}
 		if finished {
 			// let timers (connection manager 1 s, lighthouse 1 s) interleave with late traffic, then stop everything
@@ -561,9 +561,9 @@ func TestC34_RaceWorkload(t *testing.T) {
 			}
 			fmt.Printf("C34-WATCHDOG %s\n%s\n", sum, dump)
 			if dl {
-				rt.Fatalf("deadlock: workload did not finish within 60 s; %s\n%s", sum, desc)
+				rt.Fatalf("deadlock: workload (or the stop of the nodes) did not finish within its watchdog time; %s\n%s", sum, desc)
 			}
-			fmt.Printf("VERIF-INFRA: C34 workload did not finish within 60 s but no lock cycle was identified (%s)\n", sum)
+			fmt.Printf("VERIF-INFRA: C34 workload did not finish within its watchdog time but no lock cycle was identified (%s)\n", sum)
 			os.Exit(3)
 		}
 		close(net.stop)
